@@ -1,8 +1,12 @@
 #!/bin/bash
 # Must-stay-quiet corpus: behaviour-preserving refactorings of functions under contract (/verif/refactorings).
-# Prints one line per refactoring; a non-quiet one is a false alarm of the machinery (see DESIGN §8).
+# Prints one line per refactoring and property; a non-quiet one is a false alarm of the machinery (see DESIGN §6.1).
+# usage: quietcheck.sh [jobs] [name-prefix]
 cd "$(dirname "$0")"
-for d in refactorings/*/; do
+one() {
+  d=$1
   ps=$(python3 -c "import json;print(' '.join(json.load(open('$d/meta.json'))['properties']))")
-  ./refaccheck.sh "$PWD/$d" $ps
-done
+  ./refaccheck.sh "$d/" $ps
+}
+export -f one
+ls -d $PWD/refactorings/${2:-}*/ | sed 's|/$||' | xargs -P ${1:-1} -I{} bash -c 'one {}'
